@@ -455,20 +455,21 @@ class FullSizeMemmap(c14.CutUamiv):
         lay = self._layout(T)
         me = c14.header_maps(holder, lay)
         env = dict(sp.twin('PseudoNetCDF.camxfiles.uamiv.Memmap').__dict__)
-        env.update({'self': me, 'size': lay.length})
+        env.update({'self': me,
+                    'open': lambda *a, **k: c14.SizedFile(lay.length)})
         self._info = info
         try:
             out = run(env)
         except ValueError as ex:
             h.candidate('raised-on-valid-file', str(ex)[:80])
             return
-        h.claim('layers', z3.BoolVal(int(out['nz']) == nz))
-        h.claim('grid', z3.BoolVal((int(out['nx']), int(out['ny']),
-                                    int(out['nspec'])) == (nx, ny, nspec)))
-        h.claim('steps', symx._b(out['ntimes'] == T))
-        h.claim('header-offset', symx._b(out['offset'] == lay.H))
-        h.claim('block-size', symx._b(out['data_block_size'] * 4 == lay.B))
-        h.observe('ntimes', out['ntimes'])
+        h.claim('layers', z3.BoolVal(int(out['out_nz']) == nz))
+        h.claim('grid', z3.BoolVal((int(out['out_nx']), int(out['out_ny']),
+                                    int(out['out_nspec'])) ==
+                                   (nx, ny, nspec)))
+        h.claim('steps', symx._b(out['out_ntimes'] == T))
+        h.claim('header-offset', symx._b(out['out_offset'] == lay.H))
+        h.observe('ntimes', out['out_ntimes'])
 
     def real(self, inputs):
         import warnings
